@@ -145,6 +145,21 @@ def fix_atomic_specifiers(
     return decl
 
 
+def _copy_declarator_chain(node: Any) -> Any:
+    """Copies the declarator nodes of a type (pointer / array / function
+    derivations down to and including its TypeDecl) and their qualifier lists.
+    The specifier below the TypeDecl is not copied: like the specifiers of
+    any other declaration it stays shared between the declarators (copying
+    a struct body once per declarator made nested declarations exponential).
+    """
+    new = copy.copy(node)
+    if isinstance(getattr(new, "quals", None), list):
+        new.quals = new.quals[:]
+    if not isinstance(node, c_ast.TypeDecl) and getattr(node, "type", None) is not None:
+        new.type = _copy_declarator_chain(node.type)
+    return new
+
+
 def _fix_atomic_specifiers_once(
     decl: c_ast.Decl | c_ast.Typedef,
 ) -> Tuple[c_ast.Decl | c_ast.Typedef, bool]:
@@ -173,7 +188,7 @@ def _fix_atomic_specifiers_once(
     # declarators of a declaration (`_Atomic(int) a, b;`); splice in a private
     # copy so that fixing one declarator (its declname in particular) does not
     # leak into the others.
-    inner = copy.deepcopy(node.type)
+    inner = _copy_declarator_chain(node.type)
     if inner.coord is None:
         # Preserve the declarator coord for _Atomic(T) so TypeDecl doesn't lose
         # its location when we replace the wrapper Typename.
